@@ -1118,6 +1118,93 @@ func ruleC12Diags(c *Checker) {
 		}
 	}
 	c.check(traced, R, name, "finder diagnostics traced", p.Pos(fd.Pos()), "handed to BuildTracer.Diagnostics", "finder diagnostics are no longer reported to the tracer")
+	// what leaves the function is the rewritten value: the finder's own result names files relative to the
+	// package it was shown; the only things done with it are measuring it, rewriting it per package, and
+	// merging it on the edge where it is empty
+	emptyE := func() []Edge {
+		var out []Edge
+		for _, b := range host.Blocks {
+			ifi, ok := b.Instrs[len(b.Instrs)-1].(*ssa.If)
+			if !ok {
+				continue
+			}
+			cond, neg := stripNot(ifi.Cond)
+			bo, ok := cond.(*ssa.BinOp)
+			if !ok {
+				continue
+			}
+			cl, ok := bo.X.(*ssa.Call)
+			if !ok {
+				continue
+			}
+			if bi, ok := cl.Call.Value.(*ssa.Builtin); !ok || bi.Name() != "len" || cl.Call.Args[0] != ssa.Value(fd) {
+				continue
+			}
+			k, isC := constInt(bo.Y)
+			if !isC {
+				continue
+			}
+			var emptyOnTrue bool
+			switch {
+			case (bo.Op == token.GTR || bo.Op == token.NEQ) && k == 0, bo.Op == token.GEQ && k == 1:
+				emptyOnTrue = false
+			case (bo.Op == token.EQL || bo.Op == token.LEQ) && k == 0, bo.Op == token.LSS && k == 1:
+				emptyOnTrue = true
+			default:
+				continue
+			}
+			if neg {
+				emptyOnTrue = !emptyOnTrue
+			}
+			if emptyOnTrue {
+				out = append(out, Edge{b, 0})
+			} else {
+				out = append(out, Edge{b, 1})
+			}
+		}
+		return out
+	}()
+	nraw := 0
+	if refs := fd.Referrers(); refs != nil {
+		for _, r := range *refs {
+			okUse, what := false, ""
+			switch x := r.(type) {
+			case *ssa.DebugRef:
+				continue
+			case *ssa.Call:
+				if bi, isB := x.Call.Value.(*ssa.Builtin); isB && bi.Name() == "len" {
+					okUse = true
+				} else if g := x.Call.StaticCallee(); g != nil && p.InModule(g) && len(x.Call.Args) > 0 && x.Call.Args[0] == ssa.Value(fd) && isDiagnosticsType(x.Type()) {
+					okUse = true // the per-package rewriting (receiver)
+				} else if g != nil && p.InModule(g) && len(x.Call.Args) > 0 && x.Call.Args[0] == ssa.Value(fd) && isBoolType(x.Type()) {
+					okUse = true // HasErrors and the like
+				} else {
+					what = "passed to a call"
+				}
+			case *ssa.BinOp:
+				okUse = true // comparison with nil
+			case *ssa.Phi:
+				for i, e := range x.Edges {
+					if e != ssa.Value(fd) {
+						continue
+					}
+					pred := x.Block().Preds[i]
+					onEmpty := len(emptyE) > 0 && guarded(pred, emptyE)
+					for _, ee := range emptyE {
+						if ee.From == pred && ee.To() == x.Block() {
+							onEmpty = true
+						}
+					}
+					okUse = onEmpty
+					what = "merged unrewritten on an edge where it may be non-empty"
+				}
+			default:
+				what = "used by " + fmt.Sprintf("%T", r)
+			}
+			nraw++
+			c.check(okUse, R, name, fmt.Sprintf("raw finder diagnostics use %d", nraw), p.Pos(r.Pos()), "measured, rewritten per package, or merged only when empty", "the finder's diagnostics leave resolvePending as the finder wrote them ("+what+"): file names relative to the analysed package are not rewritten as source addresses in that package, so the tracer (or the caller) is pointed at a path that means nothing outside the finder")
+		}
+	}
 	// diagnostics produced by the callbacks handed to the finder (resolution errors) reach the result too
 	resultCell := func(al *ssa.Alloc) bool {
 		for _, r := range returnsOf(host) {
